@@ -263,6 +263,35 @@ def run(report, index, tier):
                 '%r for the same spelling' % (es5, got),
                 where='unparsers/extractor.py:%s' % token_of('String')[0],
                 witness='var a = %s' % lexeme)
+    # sequences of up to three units over plain characters and the JSON
+    # escapes: an escape must not change how its neighbours are read
+    import itertools as _it
+    units = ['a', '/', 'n', 'u', '0'] + ['\\' + e for e in sorted(
+        ES5_ESCAPE)] + ['\\u0041']
+    bad_seq = []
+    nseq = 0
+    for k in (2, 3):
+        for seq in _it.product(units, repeat=k):
+            lexeme = '"' + ''.join(seq) + '"'
+            try:
+                want = _json.loads(lexeme)
+            except ValueError:
+                continue
+            if not sdfa.accepts_str(lexeme):
+                continue
+            if '\\/' in lexeme:
+                continue        # known finding R19.1:escape \/
+            nseq += 1
+            got = extract('String', 'String', lexeme)
+            if not same(got, want):
+                bad_seq.append((lexeme, got, want))
+    report.count('R19.1: escape sequences of 2-3 units evaluated', nseq)
+    r.check(not bad_seq, 'escape sequences', 'JSON strings of 2-3 units',
+            '%d strings are extracted wrongly; first: %s gives %r, a JSON '
+            'parser gives %r' % ((len(bad_seq),) + (bad_seq[0] if bad_seq
+                                                    else ('', '', ''))),
+            where='unparsers/extractor.py:%s' % token_of('String')[0],
+            witness='var a = %s' % (bad_seq[0][0] if bad_seq else ''))
     r.check(sdfa.accepts_str('"\\u0041"'), 'unicode escape lexed',
             '"\\u0041"', 'the lexer rejects \\uXXXX')
     for key, lexeme in (('unicode escape', '"\\u0041\\u00e9"'),
@@ -321,6 +350,15 @@ def run(report, index, tier):
              [AL(('a', 1)), AL(('b', 2)), AL(('a', 3))], {'a': 3, 'b': 2}),
             ('repeated key, nested value',
              [AL(('k', [1])), AL(('k', {'x': None}))], {'k': {'x': None}}),
+            ('repeated key, last value null',
+             [AL(('a', 1)), AL(('a', None))], {'a': None}),
+            ('repeated key, last value false / 0 / empty',
+             [AL(('a', 1)), AL(('a', False)), AL(('b', 2)), AL(('b', 0)),
+              AL(('c', 'x')), AL(('c', ''))], {'a': False, 'b': 0, 'c': ''}),
+            ('repeated key, first value null',
+             [AL(('a', None)), AL(('a', 1))], {'a': 1}),
+            ('three bindings of one key',
+             [AL(('a', 1)), AL(('a', 2)), AL(('a', 3))], {'a': 3}),
             ('empty object', [], {})):
         got = XS.run('GroupAsMap', {'attr': ()}, Obj('Object'),
                      items=items)
